@@ -41,3 +41,6 @@ pub use self::operator::*;
 pub use self::tape::{TextTape, TextTapeParser, TextToken};
 pub use self::writer::*;
 pub use reader::{ReaderError, ReaderErrorKind, Token, TokenReader, TokenReaderBuilder};
+#[cfg(jomini_verif)]
+#[doc(hidden)]
+pub use self::tape::verif_hooks as tape_verif_hooks;
